@@ -171,6 +171,7 @@ package data
 //@   ensures [C01.compose-stride] len(dest.OffsetStep) == len(nd.OffsetStep) && forall(k, 0, len(nd.OffsetStep), dest.OffsetStep[k] == nd.OffsetStep[k] * ite(step == nil, 1, step[k]))
 //@   ensures [C01.compose-header] dest.Dims == dims && dest.OriginalDims == nd.OriginalDims && len(dest.Offset) == len(nd.Offset) && len(dest.Step) == len(nd.Step)
 //@   ensures [C01.compose-wf] forall(k, 0, len(nd.OffsetStep), dest.Offset[k] == nd.Offset[k] && dest.Step[k] == nd.Step[k] * ite(step == nil, 1, step[k]) && dest.OffsetStep[k] == dest.Offset[k]*dest.Step[k])
+//@   ensures [C01.compose-fresh-strides] fresh(dest.OffsetStep)
 //@   ensures [C01.parent-untouched] nd.Start == old(nd.Start) && nd.Dims == old(nd.Dims) && nd.OffsetStep == old(nd.OffsetStep) && forall(k, 0, len(nd.OffsetStep), nd.OffsetStep[k] == old(nd.OffsetStep[k]))
 
 // =====================================================================
@@ -204,6 +205,7 @@ package data
 //@   fresh r
 //@   dyntype r nd{t}
 //@   assigns nothing
+//@   ensures [C01.slice-fresh-strides] fresh(as(r, nd{t}).OffsetStep)
 //@   ensures [C01.slice-shares] as(r, nd{t}).Impl == nd.Impl
 //@   ensures [C01.slice-start] as(r, nd{t}).Start == nd.Start + idot(loc, nd.OffsetStep, len(loc))
 //@   ensures [C01.slice-stride] len(as(r, nd{t}).OffsetStep) == len(nd.OffsetStep) && forall(k, 0, len(nd.OffsetStep), as(r, nd{t}).OffsetStep[k] == nd.OffsetStep[k] * ite(step == nil, 1, step[k]))
@@ -447,3 +449,25 @@ package data
 //@ induct [C02.lemma-successor-1] (v []int, w []int, d []int, j int) z : implies(j >= 0 && j < pfrom(d, 0, 1) && forall(k, 0, 1, d[k] >= 1 && v[k] == rmc(d, j, 1, k)) && forall(k, 0, carryPos(v, d, 0), w[k] == v[k]) && implies(carryPos(v, d, 0) >= 0, w[carryPos(v, d, 0)] == v[carryPos(v, d, 0)] + 1) && forall(k, carryPos(v, d, 0) + 1, 1, w[k] == 0), forall(k, 0, 1, w[k] == rmc(d, j+1, 1, k)))
 //@ induct [C02.lemma-successor-2] using C02.lemma-div-succ(j, d[1], 0), C02.lemma-div-succ(div(j, d[1]), d[0], 0) (v []int, w []int, d []int, j int) z : implies(j >= 0 && j < pfrom(d, 0, 2) && forall(k, 0, 2, d[k] >= 1 && v[k] == rmc(d, j, 2, k)) && forall(k, 0, carryPos(v, d, 1), w[k] == v[k]) && implies(carryPos(v, d, 1) >= 0, w[carryPos(v, d, 1)] == v[carryPos(v, d, 1)] + 1) && forall(k, carryPos(v, d, 1) + 1, 2, w[k] == 0), forall(k, 0, 2, w[k] == rmc(d, j+1, 2, k)))
 //@ induct [C02.lemma-successor-3] using C02.lemma-pfrom-end(d, 3, 0), C02.lemma-div-succ(j, pfrom(d, 2, 3), 0), C02.lemma-div-succ(div(j, pfrom(d, 2, 3)), d[1], 0), C02.lemma-div-succ(div(j, pfrom(d, 1, 3)), d[0], 0), C02.lemma-div-div(j, pfrom(d, 2, 3), d[1], 0), C02.lemma-div-div(j+1, pfrom(d, 2, 3), d[1], 0) (v []int, w []int, d []int, j int) z : implies(j >= 0 && j < pfrom(d, 0, 3) && forall(k, 0, 3, d[k] >= 1 && v[k] == rmc(d, j, 3, k)) && forall(k, 0, carryPos(v, d, 2), w[k] == v[k]) && implies(carryPos(v, d, 2) >= 0, w[carryPos(v, d, 2)] == v[carryPos(v, d, 2)] + 1) && forall(k, carryPos(v, d, 2) + 1, 3, w[k] == 0), forall(k, 0, 3, w[k] == rmc(d, j+1, 3, k)))
+
+// General-rank interface model ("ndmodel rowmajor"): an array x of unknown back-end has
+// extents x.shape (x.rank of them) and row-major elements x.at(j), j < iprod(x.shape).
+//@ iface rowmajor:Shape(x) returns (s)
+//@   ensures len(s) == x.rank && forall(k, 0, x.rank, s[k] == x.shape[k])
+//@   assigns nothing
+//@ iface rowmajor:Get(x, loc) returns (v)
+//@   requires len(loc) == x.rank && forall(k, 0, x.rank, 0 <= loc[k] && loc[k] < x.shape[k])
+//@   ensures forall(j, 0, iprod(x.shape, x.rank), implies(forall(k, 0, x.rank, loc[k] == rmc(x.shape, j, x.rank, k)), v == x.at(j)))
+//@   assigns nothing
+//@ iface rowmajor:Unroll(x) returns (r)
+//@   ensures len(r) == iprod(x.shape, x.rank) && forall(j, 0, iprod(x.shape, x.rank), r[j] == x.at(j))
+//@   assigns nothing
+
+// stride of axis k of the slice taken with step st (ns = 1: no step vector, every step is 1)
+//@ specu sstride(os []int, st []int, ns int, k int) int = os[k]*ite(ns == 1, 1, st[k])
+// address offset of row-major element j of the block with extents d inside that slice
+//@ spec sladdr(d []int, os []int, st []int, ns int, j int, N int, n int) int = ite(n <= 0, 0, sladdr(d, os, st, ns, j, N, n-1) + rmc(d, j, N, n-1)*sstride(os, st, ns, n-1))
+// ... which is rmaddr over the actual stride vector w of the slice
+//@ induct [C01.lemma-sladdr-rmaddr] (d []int, os []int, st []int, ns int, w []int, j int, N int) n : implies(forall(k, 0, n, w[k] == sstride(os, st, ns, k)), rmaddr(d, w, j, N, n) == sladdr(d, os, st, ns, j, N, n))
+// an all-zero index vector addresses offset 0
+//@ induct [C01.lemma-idot-zero] (a []int, os []int) n : implies(forall(k, 0, n, a[k] == 0), idot(a, os, n) == 0)
